@@ -20,6 +20,7 @@ import Pyc.Driver.Metadata
 import Pyc.Driver.NativeScript
 import Pyc.Driver.Pool
 import Pyc.Driver.WitnessCodec
+import Pyc.Driver.BodyAsm
 open Lean Pyc.Driver
 
 /-- dispatch on the prefix of `op` -/
@@ -47,6 +48,7 @@ def dispatch (op : String) (j : Json) : R Json :=
   else if op.startsWith "ns." then handleNativeScript op j
   else if op.startsWith "pool." then handlePool op j
   else if op.startsWith "wc." then handleWitnessCodec op j
+  else if op.startsWith "basm." then handleBodyAsm op j
   else throw s!"unknown op {op}"
 
 def handleLine (line : String) : String :=
